@@ -109,6 +109,10 @@ type LockAnalysis struct {
 	Guards   []*GuardedField
 	SyncHOF  map[string]bool // callee ids that invoke their func argument synchronously
 	Fresh    func(v ssa.Value) bool
+	// Exempt lists (function, lock class) pairs whose unguarded accesses are tabled exceptions:
+	// they are recorded in Exempted and neither reported nor propagated to callers.
+	Exempt   func(f *ssa.Function, class string) bool
+	Exempted []Access
 	funcs    []*ssa.Function
 	cg       *CG
 	in       map[*ssa.Function]map[*ssa.BasicBlock]lockset
@@ -161,8 +165,8 @@ func lockClassOf(recv ssa.Value) (class string, inst string, instV ssa.Value, ok
 }
 
 // NewLockAnalysis runs the engine over funcs.
-func NewLockAnalysis(funcs []*ssa.Function, cg *CG, guards []*GuardedField, syncHOF map[string]bool) *LockAnalysis {
-	la := &LockAnalysis{Guards: guards, SyncHOF: syncHOF, funcs: funcs, cg: cg,
+func NewLockAnalysis(funcs []*ssa.Function, cg *CG, guards []*GuardedField, syncHOF map[string]bool, exempt func(f *ssa.Function, class string) bool) *LockAnalysis {
+	la := &LockAnalysis{Guards: guards, SyncHOF: syncHOF, funcs: funcs, cg: cg, Exempt: exempt,
 		in:       map[*ssa.Function]map[*ssa.BasicBlock]lockset{},
 		entry:    map[*ssa.Function]lockset{},
 		Accesses: map[*ssa.Function][]Access{},
@@ -503,6 +507,10 @@ func (la *LockAnalysis) collect(f *ssa.Function) {
 		class := a.G.LockOwner + "." + a.G.LockField
 		st := la.At(a.Instr)
 		if satisfied(st, class, a.Write, a.G.SameInstance, a.Base) {
+			continue
+		}
+		if la.Exempt != nil && la.Exempt(f, class) && !a.Write {
+			la.Exempted = append(la.Exempted, a)
 			continue
 		}
 		bp := -1
